@@ -24,6 +24,7 @@ type worldOpts struct {
 	forceParallel bool
 	forceRolling  bool
 	orphanRevs    bool
+	eventMode     bool
 }
 
 func (w World) Summary() interface{} { return summarizeWorld(w) }
@@ -79,6 +80,7 @@ func genWorld(rt *rapid.T, o worldOpts) World {
 	}
 	w.Ops = genOps(rt, o.maxOps, o.weights, o.faults, o.interference)
 	w.CloseLag = rapid.SampledFrom([]int{0, 0, 1, 1, 2}).Draw(rt, "closeLag")
+	w.EventMode = o.eventMode && rapid.IntRange(0, 2).Draw(rt, "eventMode") == 0
 	return w
 }
 
@@ -264,6 +266,9 @@ func TestRegressC07(t *testing.T) { regress(t, "C07", runC07) }
 func runC14(rep Rep, w World) {
 	nt := false
 	s := runHistory(rep, w, func(v *View, op *Op, s *Sys) {
+		// "rolling updates still take down one pod at a time": the rolling-update discipline of C07 applies
+		// under Parallel as well (an update delete needs every higher desired pod up to date and healthy)
+		monC07(rep, v)
 		k, m, by := monC14(rep, v)
 		if k+m >= 2 && by {
 			nt = true
